@@ -110,6 +110,30 @@ def prepare_process():
         raise HarnessError(f"eudoxia imported from {f}, expected under {REPO}")
 
 
+class package_logging_on:
+    """Context manager: the package's own default logging (DEBUG on the root logger, as `import eudoxia` sets it up) is
+    switched on for one case, with the output thrown away.  Behaviour may not depend on the log level."""
+
+    def __enter__(self):
+        import logging
+        self.devnull = open(os.devnull, "w")
+        self.saved = []
+        for h in logging.getLogger().handlers:
+            if hasattr(h, "stream"):
+                self.saved.append((h, h.stream))
+                h.stream = self.devnull
+        logging.disable(logging.NOTSET)
+        return self
+
+    def __exit__(self, *a):
+        import logging
+        logging.disable(logging.CRITICAL)
+        for h, st in self.saved:
+            h.stream = st
+        self.devnull.close()
+        return False
+
+
 def reset_case_state():
     from eudoxia.executor.container import Container
     Container.next_container_num = 1
